@@ -303,6 +303,10 @@ impl Prop for C07 {
         }
     }
 
+    fn view(c: &Case) -> serde_json::Value {
+        serde_json::json!({"session": crate::lockstep::prog_view(&c.prog), "mode": c.mode})
+    }
+
     fn shrink(c: &Case) -> Vec<Case> {
         let mut out = vec![];
         match &c.mode {
